@@ -96,6 +96,8 @@ _ECHO_ARGS = {
     "o": _a("In"),
     "r": _a("Int!", "3"),
     "q": _a("Req"),
+    "j": _a("JSON"),
+    "dt": _a("Date"),
 }
 SCHEMA_C = {
     "name": "C",
@@ -133,10 +135,39 @@ SCHEMA_C = {
         },
         "Req": {"kind": "input", "fields": {"must": {"type": "Int!", "default": None}, "opt": {"type": "Int", "default": None}}},
         "In2": {"kind": "input", "fields": {"a": {"type": "Int", "default": None}, "b": {"type": "[String!]", "default": None}}},
-        "Date": {"kind": "scalar"},
+        "Date": {"kind": "scalar"},  # code-defined: (y, m) tuple <-> "y-m", own parse_literal
+        "JSON": {"kind": "scalar", "impl": "sdl"},  # SDL-defined: the library's default serialize / parse / parse_literal
     },
 }
 
+
+# -- D: one fragment under several parents of the same / different runtime type; wrapped parents --
+_PET_FIELDS = {"name": _f("String"), "owner": _f("Person"), "tag": _f("String", {"i": _a("Int"), "s": _a("String"), "r": _a("Int!")}, echo=True)}
+SCHEMA_D = {
+    "name": "D",
+    "query": "Query",
+    "mutation": None,
+    "subscription": None,
+    "types": {
+        "Query": {
+            "kind": "object",
+            "interfaces": [],
+            "fields": {
+                "first": _f("Dog"),
+                "second": _f("Dog!"),
+                "dogs": _f("[Dog!]!"),
+                "kennel": _f("[Dog]"),
+                "pet": _f("Pet"),
+                "pets": _f("[Pet]"),
+                "cat": _f("Cat"),
+            },
+        },
+        "Pet": {"kind": "interface", "fields": dict(_PET_FIELDS)},
+        "Dog": {"kind": "object", "interfaces": ["Pet"], "fields": dict(_PET_FIELDS)},
+        "Cat": {"kind": "object", "interfaces": ["Pet"], "fields": dict(_PET_FIELDS)},
+        "Person": {"kind": "object", "interfaces": [], "fields": {"name": _f("String"), "age": _f("Int"), "best": _f("Dog")}},
+    },
+}
 
 
 def _merge(name, base, other, other_root_fields_into):
@@ -157,7 +188,7 @@ SCHEMA_H = _merge("H", SCHEMA_C, SCHEMA_B, "Q")
 SCHEMA_H["types"]["Q"]["fields"]["n"] = _f("Int!")
 SCHEMA_H["types"]["Q"]["fields"]["li"] = _f("[Int!]!")
 
-SCHEMAS = {"A": SCHEMA_A, "B": SCHEMA_B, "C": SCHEMA_C, "H": SCHEMA_H}
+SCHEMAS = {"A": SCHEMA_A, "B": SCHEMA_B, "C": SCHEMA_C, "H": SCHEMA_H, "D": SCHEMA_D}
 
 
 # -- type expressions -------------------------------------------------------------------------
@@ -286,6 +317,12 @@ def date_parse(s):
     return (int(a), int(b))
 
 
+def date_parse_literal(node, variables=None):
+    if type(node).__name__ != "StringValue":
+        raise ValueError("Date literal must be a string")
+    return date_parse(node.value)
+
+
 def build(sm, resolver=None):
     """py_gql Schema for the model; `resolver` becomes the schema-wide default resolver."""
     from py_gql import build_schema
@@ -295,8 +332,8 @@ def build(sm, resolver=None):
     for name, t in sm["types"].items():
         if t["kind"] == "enum":
             extra.append(EnumType(name, [(k, v) for k, v in t["values"].items()]))
-        elif t["kind"] == "scalar":
-            extra.append(ScalarType(name, serialize=date_serialize, parse=date_parse))
+        elif t["kind"] == "scalar" and t.get("impl") != "sdl":
+            extra.append(ScalarType(name, serialize=date_serialize, parse=date_parse, parse_literal=date_parse_literal))
     schema = build_schema(to_sdl(sm), additional_types=extra)
     if resolver is not None:
         schema.default_resolver = resolver
